@@ -70,7 +70,16 @@ def op_strategy(depth=2):
         nm.map(lambda n: T("save_state", n)), nm.map(lambda n: T("restore_state", n)),
         nm.map(lambda n: T("restore_state", n)), nm.map(lambda n: T("delete_state", n)),
     )
-    state = st.one_of(state, state, state, state, state, st.just({"op": "other", "args": []}))
+    # a name saved again after only the pivot (or nothing) changed, then used:
+    # "nothing new to save" shortcuts must compare the whole state
+    resave = st.tuples(nm, st.tuples(c, c, c), st.tuples(c, c, c), ang,
+                       st.sampled_from(["x", "y", "z"]), st.booleans()).map(
+        lambda t: {"op": "macro", "ops": [
+            T("save_state", t[0]), T("set_pivot", list(t[1])), T("save_state", t[0])]
+            + ([T("set_pivot", list(t[2]))] if t[5] else [T("translate", *t[2])])
+            + [T("restore_state", t[0]), T("rotate", t[3], t[4])]})
+    state = st.one_of(state, state, state, state, state, st.just({"op": "other", "args": []}),
+                      resave)
     if depth <= 0:
         return st.one_of(geo, geo, state, state)
     inner = op_strategy(depth - 1)
@@ -151,6 +160,11 @@ class Runner:
             m.cur, m.stack = entry.cur, entry.stack
             self.compare(f"after leaving {op['kind']} context"
                          f"{' (body raised)' if op['raise'] else ''}")
+            return
+        if name == "macro":
+            self.cl.add("name_saved_again_after_pivot_change")
+            for sub in op["ops"]:
+                self.step(sub)
             return
         if name == "other":
             from vf.statehist import other_builder_activity
